@@ -35,6 +35,7 @@ class Run:
 
     # ------------------------------------------------------------- TLC on the design
     def mc_run(self, module, cfg, workers=6, timeout=3000, xmx="8g", must_cover=()):
+        workers = int(os.environ.get("VERIF_TLC_WORKERS", workers))
         r = core.tlc_mc(module, cfg, workers=workers, timeout=timeout, xmx=xmx)
         if r["rc"] != 0:
             raise ToolError("design model %s/%s: TLC reported an error (the bounded model no longer "
@@ -52,6 +53,7 @@ class Run:
         return r
 
     def export(self, module, cfg, workers=6, timeout=3000, xmx="8g"):
+        workers = int(os.environ.get("VERIF_TLC_WORKERS", workers))
         r = core.tlc_export(module, cfg, workers=workers, timeout=timeout, xmx=xmx)
         self.states += r["distinct"]
         self.transitions += r["generated"]
@@ -69,6 +71,7 @@ class Run:
         """Executes the episodes on the real code and validates the trace."""
         if not episodes:
             return
+        shards = int(os.environ.get("VERIF_SHARDS", shards))
         exe = core.build_harness(profile)
         sp = self.work / (name + ".script.ndjson")
         tp = self.work / (name + ".trace.ndjson")
